@@ -701,3 +701,43 @@ def point_sums(F, type_rx):
                 bad = "n=%d: returns %s, expected %s" % (k, " + ".join("%d*%s" % (c, p) for (p, _), c in sorted(got.items())) or "the identity", " + ".join("P%d" % i for i in range(k)) or "the identity")
                 break
         yield "%s::sum" % tyname, f, bad is None, bad or "iterators of 0..3 points: the result is the group sum of the items (the empty sum is the identity)"
+
+
+def one_way_map(F):
+    """(ok|None, msg): from_uniform_bytes on 64 symbolic bytes in the LINCOMB domain with two extra tokens - FieldElement::from_bytes of 32 consecutive
+    input bytes is the field element of that half, elligator_ristretto_flavor of it is a point symbol: the result must be MAP(bytes[0..32]) + MAP(bytes[32..64]).
+    None = outside the domain (undecided)"""
+    import eng_lincomb as LC
+
+    class OW(LC.LcModels):
+        def call(self, ip, fv, st, depth, t, n, a, dty):
+            if re.search(r"field::FieldElement(51|2625)?::from_bytes$|backend::serial::\w+::field::FieldElement\w+::from_bytes$", n):
+                v = ip.deconst(ip.deref_val(st, a[0]))
+                if v is not None and v[0] == "arr" and len(v[1]) == 32 and all(x[0] == "byte" for x in v[1]) and \
+                        all(x[1] == v[1][0][1] and x[2] == v[1][0][2] + j for j, x in enumerate(v[1])):
+                    return ("fehalf", v[1][0][2])
+                return ("fehalf", None)
+            if re.search(r"RistrettoPoint::elligator_ristretto_flavor$", n):
+                v = ip.deconst(ip.deref_val(st, a[0]))
+                off = v[1] if v is not None and v[0] == "fehalf" else None
+                return ("st", (LC.sym(("MAP", off)),))
+            return super().call(ip, fv, st, depth, t, n, a, dty)
+    fs = [f for f in F.fns.values() if "mir" in f and f["kind"] != "Closure" and re.search(r"ristretto::RistrettoPoint::from_uniform_bytes$", f["path"])]
+    if len(fs) != 1:
+        return None, "from_uniform_bytes not found"
+    ip = LC.LcInterp(F, OW(), step_budget=2_000_000)
+    ip.exact_small_vecs = True
+    try:
+        ret, root_ = ip.run_root(fs[0], [("arr", tuple(("byte", "in", j) for j in range(64)))])
+    except Exception as e:
+        return None, "analysis failed: %r" % (e,)
+    v = ret
+    while v is not None and v[0] == "st" and len(v[1]) == 1:
+        v = v[1][0]
+    got = LC.terms(v)
+    if got is None:
+        return None, "the result is outside the domain"
+    want = {(("MAP", 0), None): 1, (("MAP", 32), None): 1}
+    if got == want:
+        return True, "the result is MAP(bytes[0..32]) + MAP(bytes[32..64]) with MAP = elligator_ristretto_flavor(FieldElement::from_bytes(.))"
+    return False, "the result is %s, expected MAP(bytes[0..32]) + MAP(bytes[32..64])" % (" + ".join("%d*MAP(bytes[%s..])" % (c, p[1]) for (p, _), c in sorted(got.items(), key=repr)) or "the identity")
